@@ -433,6 +433,11 @@ def search(seed, tier):
         if not np.allclose(Z[:, k], ref, rtol=1e-9, atol=tol(l)):
             found.append(dict(case='zonal harmonic (column k must be the k-th requested degree)', degree=l, column=k, degrees=order,
                               got=Z[:, k].tolist(), want=ref.tolist()))
+    # both `max_degree` and `degrees` given: `degrees` takes precedence (documented)
+    Zb = FB.ZonalSphericalHarmonics(max_degree=2, degrees=[0, 2, 4])(th, ph).detach().numpy()
+    if Zb.shape != (n, 3) or any(not np.allclose(Zb[:, k], math.sqrt((2 * l + 1) / (4 * math.pi)) * eval_legendre(l, np.cos(thn)), rtol=1e-9, atol=1e-10)
+                                 for k, l in enumerate([0, 2, 4])):
+        found.append(dict(case='ZonalSphericalHarmonics(max_degree=2, degrees=[0, 2, 4]): the columns are not the requested degrees 0, 2, 4', shape=list(Zb.shape)))
     x = torch.tensor([[rng.uniform(-1, 1)] for _ in range(n - 1)] + [[0.0]])
     Lb = FB.LegendreBasis(max_degree=26)(x).numpy()
     for l in degs:
